@@ -35,7 +35,13 @@ typedef off_t (*ftello_t)(FILE*);
 typedef int (*ftruncate_t)(int, off_t);
 typedef int (*remove_t)(const char*);
 
-bool is_target_path(const char* p) { return g.active && p && !g.target.empty() && g.target == p; }
+// the target itself, or a sibling derived from its name (a writer may build the file under a temporary name and move
+// it into place: "<target>.tmp", "<target>~", ...)
+bool is_target_path(const char* p) {
+  if (!g.active || !p || g.target.empty()) return false;
+  size_t n = g.target.size(), m = strlen(p);
+  return m >= n && m <= n + 16 && memcmp(p, g.target.data(), n) == 0;
+}
 bool is_target(FILE* f) { return g.active && f && f == g.fp; }
 
 // returns true when this operation is the one selected to fail
@@ -144,6 +150,16 @@ int ftruncate64(int fd, off64_t len) {
   if (fail) { errno = g.err; return -1; }
   if (g.record) g.trace.push_back({c08::OP_TRUNCATE, 0, {}, (long long)len});
   return r(fd, len);
+}
+
+int rename(const char* from, const char* to) {
+  typedef int (*rename_t)(const char*, const char*);
+  rename_t r = real<rename_t>("rename");
+  if (!(is_target_path(from) || is_target_path(to))) return r(from, to);
+  bool fail = step(c08::OP_RENAME);   // moving the finished file into place is a step of the write; it can fail (ENOSPC, EIO, EDQUOT on the directory)
+  if (g.record) g.trace.push_back({c08::OP_RENAME, 0, {}, 0});
+  if (fail) { errno = g.err; return -1; }
+  return r(from, to);
 }
 
 int remove(const char* path) {
